@@ -7,6 +7,7 @@ import (
 	"github.com/glebziz/fs_db/internal/model"
 	"github.com/glebziz/fs_db/internal/model/core"
 	"github.com/glebziz/fs_db/internal/model/sequence"
+	"github.com/glebziz/fs_db/internal/verifhook"
 )
 
 func (u *UseCase) Get(_ context.Context, txId, key string, filter model.FileFilter) (model.File, error) {
@@ -34,6 +35,7 @@ func (u *UseCase) Get(_ context.Context, txId, key string, filter model.FileFilt
 }
 
 func (u *UseCase) getFileFromTx(tx *core.Transaction, key string, beforeSeq *sequence.Seq) model.File {
+	verifhook.At("core.get.lookup")
 	tx.RLock()
 	defer tx.RUnlock()
 
